@@ -1,3 +1,149 @@
 import Ptk.Proto
--- stub: the C19 model driver has not been written yet
-def main : IO Unit := Ptk.Proto.run fun _ => "bad-op"
+import Ptk.Gen.PyChars
+import Ptk.Gen.C19
+import Ptk.Model.C19
+import Ptk.Model.C19Color
+import Ptk.Model.C19Ansi
+open Ptk Ptk.Py Ptk.Proto Ptk.C19
+
+def T : Tables := Gen.C19.tables
+def sp : Char → Bool := Gen.isSpace
+def rsp : Char → Bool := Gen.reSpace
+
+def decOptStr (tok : String) : Option (Option Text) :=
+  if tok == "N" then some none else (decStr tok).map some
+def decOptBool (tok : String) : Option (Option Bool) :=
+  if tok == "N" then some none else (decBool tok).map some
+def encOptStr : Option Text → String
+  | none => "N"
+  | some t => encStr t
+def encOptBool : Option Bool → String
+  | none => "N"
+  | some b => encBool b
+
+def decAttrs : List String → Option (Attrs × List String)
+  | c :: b :: bo :: un :: st :: it :: bl :: re :: hi :: rest => do
+    let a : Attrs := { color := ← decOptStr c, bgcolor := ← decOptStr b, bold := ← decOptBool bo,
+                       underline := ← decOptBool un, strike := ← decOptBool st, italic := ← decOptBool it,
+                       blink := ← decOptBool bl, reverse := ← decOptBool re, hidden := ← decOptBool hi }
+    pure (a, rest)
+  | _ => none
+
+def encAttrs (a : Attrs) : String :=
+  " ".intercalate [encOptStr a.color, encOptStr a.bgcolor, encOptBool a.bold, encOptBool a.underline,
+    encOptBool a.strike, encOptBool a.italic, encOptBool a.blink, encOptBool a.reverse, encOptBool a.hidden]
+
+def encErr : Err → String
+  | .assertion => "err:AssertionError"
+  | .value => "err:ValueError"
+
+/-- `n (s:names s:style)^n` -/
+def decRules : Nat → List String → Option (List (Text × Text) × List String)
+  | 0, rest => some ([], rest)
+  | n + 1, a :: b :: rest => do
+    let x ← decStr a
+    let y ← decStr b
+    let (rs, rest') ← decRules n rest
+    pure ((x, y) :: rs, rest')
+  | _, _ => none
+
+/-- `k` sheets, each `N` or `n rules...` -/
+def decSheets : Nat → List String → Option (List (Option (List (Text × Text))) × List String)
+  | 0, rest => some ([], rest)
+  | k + 1, tok :: rest =>
+    if tok == "N" then do
+      let (ss, rest') ← decSheets k rest
+      pure (none :: ss, rest')
+    else do
+      let n ← decNat tok
+      let (rs, rest1) ← decRules n rest
+      let (ss, rest2) ← decSheets k rest1
+      pure (some rs :: ss, rest2)
+  | _, _ => none
+
+def decStrs : Nat → List String → Option (List Text × List String)
+  | 0, rest => some ([], rest)
+  | n + 1, a :: rest => do
+    let x ← decStr a
+    let (xs, rest') ← decStrs n rest
+    pure (x :: xs, rest')
+  | _, _ => none
+
+def decDepth (tok : String) : Option Depth :=
+  if tok == "1" then some .d1 else if tok == "4" then some .d4
+  else if tok == "8" then some .d8 else if tok == "24" then some .d24 else none
+
+def encFrags (l : List (Text × Text)) : String :=
+  encList (fun f => encStr f.1 ++ " " ++ encStr f.2) l
+
+def handle (toks : List String) : String :=
+  match toks with
+  | "q" :: rest =>
+    (do
+      let (dflt, r1) ← decAttrs rest
+      match r1 with
+      | k :: r2 =>
+        let (sheets, r3) ← decSheets (← decNat k) r2
+        match r3 with
+        | [s] =>
+          let s ← decStr s
+          pure (match query T sp rsp sheets s dflt with
+                | .ok a => encAttrs a
+                | .error e => encErr e)
+        | _ => none
+      | _ => none).getD "bad-op"
+  | ["pc", s] =>
+    (do pure (match parseColor T (← decStr s) with
+              | some c => encStr c
+              | none => "err:ValueError")).getD "bad-op"
+  | ["ps", s] =>
+    (do pure (match parseStyleStr T sp (← decStr s) with
+              | some a => encAttrs a
+              | none => "err:ValueError")).getD "bad-op"
+  | ["ex", s] => (do pure (encList encStr (expandClassname (← decStr s)))).getD "bad-op"
+  | ["c256", r, g, b] =>
+    (do pure (toString (closest256 T.pal256 (← decNat r, ← decNat g, ← decNat b)))).getD "bad-op"
+  | ["c256row", r, g] =>
+    (do
+      let r ← decNat r
+      let g ← decNat g
+      pure (" ".intercalate ((List.range 256).map fun b => toString (closest256 T.pal256 (r, g, b))))
+    ).getD "bad-op"
+  | "c16" :: r :: g :: b :: n :: rest =>
+    (do
+      let (ex, rest') ← decStrs (← decNat n) rest
+      if !rest'.isEmpty then none
+      pure (encStr (closest16 T.ansiRgb (← decNat r, ← decNat g, ← decNat b) ex))).getD "bad-op"
+  | "c16code" :: bg :: r :: g :: b :: n :: rest =>
+    (do
+      let (ex, rest') ← decStrs (← decNat n) rest
+      if !rest'.isEmpty then none
+      pure (match code16 T (← decBool bg) (← decNat r, ← decNat g, ← decNat b) ex with
+            | some (code, name) => s!"{code} {encStr name}"
+            | none => "err:KeyError")).getD "bad-op"
+  | "esc" :: d :: rest =>
+    (do
+      let (a, r) ← decAttrs rest
+      if !r.isEmpty then none
+      pure (encStr (escapeCode T sp (← decDepth d) a))).getD "bad-op"
+  | ["hex", s] =>
+    (do pure (match colorNameToRgb sp (← decStr s) with
+              | some (r, g, b) => s!"{r} {g} {b}"
+              | none => "err:ValueError")).getD "bad-op"
+  | ["ansi", s] => (do pure (encFrags (ansiFragments T (← decStr s)))).getD "bad-op"
+  | "rt" :: d :: rest =>
+    -- round trip: escape code -> ANSI(escape + 'x') -> style string -> Style([]).get_attrs_for_style_str
+    (do
+      let (a, r) ← decAttrs rest
+      if !r.isEmpty then none
+      let e := escapeCode T sp (← decDepth d) a
+      let frags := ansiFragments T (e ++ ['x'])
+      match frags with
+      | [(style, _)] =>
+        pure (match getAttrs T sp [] style T.defaultAttrs with
+              | some a' => encStr style ++ " " ++ encAttrs a'
+              | none => "err:ValueError")
+      | _ => pure ("frags:" ++ encFrags frags)).getD "bad-op"
+  | _ => "bad-op"
+
+def main : IO Unit := run handle
